@@ -494,7 +494,7 @@ func main() {
 	rootSets := [][2]interface{}{
 		{"seqJsonRoots", []string{"NewMapXmlSeq", "NewMapFormattedXmlSeq", "NewMapXmlSeqReader", "NewMapXmlSeqReaderRaw", "MapSeq.Xml", "MapSeq.XmlWriter", "Map.Json", "Map.JsonIndent", "Map.JsonWriter", "Map.JsonWriterRaw", "Map.JsonIndentWriter", "Map.JsonIndentWriterRaw", "NewMapJson", "NewMapJsonReader", "NewMapJsonReaderRaw", "HandleJsonReader", "HandleJsonReaderRaw", "Map.Copy"}},
 		{"decoderRoots", []string{"NewMapXml", "NewMapXmlReader", "NewMapXmlReaderRaw", "HandleXmlReader", "HandleXmlReaderRaw", "NewMapXmlSeq", "NewMapFormattedXmlSeq", "NewMapXmlSeqReader", "NewMapXmlSeqReaderRaw", "NewMapJson", "NewMapJsonReader", "NewMapJsonReaderRaw", "NewMapGob"}},
-		{"queryRoots", []string{"Map.ValuesForKey", "Map.ValueForKey", "Map.ValuesForPath", "Map.ValueForPath", "Map.ValueForPathString", "Map.ValueOrEmptyForPathString", "Map.PathsForKey", "Map.PathForKeyShortest", "Map.Exists", "Map.LeafNodes", "Map.LeafPaths", "Map.LeafValues", "Map.Elements", "Map.Attributes", "Map.Root", "Map.Xml", "Map.XmlIndent", "Map.XmlWriter", "Map.XmlIndentWriter", "MapSeq.Xml", "MapSeq.XmlIndent", "Map.Json", "Map.JsonIndent", "Map.Gob", "Map.Copy", "Map.StringIndent", "Map.StringIndentNoTypeInfo", "AnyXml", "AnyXmlIndent", "NewMapXml", "NewMapXmlSeq", "NewMapJson"}},
+		{"queryRoots", []string{"Map.ValuesForKey", "Map.ValueForKey", "Map.ValuesForPath", "Map.ValueForPath", "Map.ValueForPathString", "Map.ValueOrEmptyForPathString", "Map.PathsForKey", "Map.PathForKeyShortest", "Map.Exists", "Map.LeafNodes", "Map.LeafPaths", "Map.LeafValues", "Map.Elements", "Map.Attributes", "Map.Root", "Map.Xml", "Map.XmlIndent", "Map.XmlWriter", "Map.XmlIndentWriter", "MapSeq.Xml", "MapSeq.XmlIndent", "Map.Json", "Map.JsonIndent", "Map.Gob", "Map.Copy", "Map.StringIndent", "Map.StringIndentNoTypeInfo", "AnyXml", "AnyXmlIndent", "NewMapXml", "NewMapXmlSeq", "NewMapJson", "NewMapXmlReader", "NewMapXmlReaderRaw", "HandleXmlReader", "HandleXmlReaderRaw", "NewMapFormattedXmlSeq", "NewMapXmlSeqReader", "NewMapXmlSeqReaderRaw", "NewMapJsonReader", "NewMapJsonReaderRaw", "HandleJsonReader", "HandleJsonReaderRaw", "NewMapGob", "BeautifyXml", "MapSeq.XmlWriter", "MapSeq.XmlIndentWriter", "Map.JsonWriter", "Map.JsonWriterRaw", "Map.JsonIndentWriter", "Map.JsonIndentWriterRaw", "Map.NewMap", "NewMapsFromXmlFile", "NewMapsFromJsonFile", "Maps.XmlString", "Maps.JsonString"}},
 	}
 	for _, rs := range rootSets {
 		name := rs[0].(string)
